@@ -34,6 +34,17 @@ fn identities(v: &mut Verdicts) {
     let mut inv = true;
     for k in -128..=128 { let x = k as f64 / 8.0; let g = guard(|| logit(logistic(x))); if !g.map(|g| (g - x).abs() <= 1e-8 * (1.0 + x.abs())).unwrap_or(false) { inv = false; worst = json!({"x": x, "got": g}); } }
     v.check(inv, "logit", "inverse-of-logistic", &nul, worst.clone());
+    // the negative tail is representable with full relative precision (logistic(x) ~ e^x), so the inversion holds down to -700
+    let mut inv_tail = true;
+    for k in (-700 * 8)..=(-128) { let x = k as f64 / 8.0; let g = guard(|| logit(logistic(x))); if !g.map(|g| (g - x).abs() <= 1e-8 * (1.0 + x.abs())).unwrap_or(false) { inv_tail = false; worst = json!({"x": x, "got": g}); } }
+    v.check(inv_tail, "logit", "inverse-of-logistic negative-tail", &nul, worst.clone());
+    // logistic inverts logit on (0, 1): small p to relative accuracy, p near 1 to absolute accuracy
+    let mut inv_p = true;
+    for k in 1..=1000 { for m in [1.0, 1.5, 1.0 + 2f64.powi(-30)] { let p = m * 2f64.powi(-k); let g = guard(|| logistic(logit(p))); if !g.map(|g| (g - p).abs() <= 1e-10 * p).unwrap_or(false) { inv_p = false; worst = json!({"p": fj(p), "got": g.map(fj)}); } } }
+    v.check(inv_p, "logistic", "inverse-of-logit small-p", &nul, worst.clone());
+    let mut inv_q = true;
+    for k in 1..=50 { let p = 1.0 - 2f64.powi(-k); let g = guard(|| logistic(logit(p))); if !g.map(|g| (g - p).abs() <= 2f64.powi(-50)).unwrap_or(false) { inv_q = false; worst = json!({"p": fj(p), "got": g.map(fj)}); } }
+    v.check(inv_q, "logistic", "inverse-of-logit p-near-1", &nul, worst.clone());
     v.check(guard(|| logit(0.5)) == Some(0.0), "logit", "at-half", &nul, json!(guard(|| logit(0.5))));
     v.check(guard(|| logit(0.0)) == Some(f64::NEG_INFINITY) && guard(|| logit(1.0)) == Some(f64::INFINITY), "logit", "end-points", &nul, json!(null));
     for p in [-0.25, 1.25, -1e-300, 1.0000000000000002, f64::NAN] {
@@ -73,8 +84,33 @@ fn identities(v: &mut Verdicts) {
     }
 }
 
-pub fn replay(cases: &str, verdicts: &str) {
+/// Box-Cox against the mpmath table: the definition (x^lambda - 1)/lambda evaluated in floating point is conditioned like
+/// eps * max(1, x^lambda) / |lambda| (cancellation in x^lambda - 1), which is the acceptance bound used here
+fn boxcox_table(v: &mut Verdicts, refdir: &str) {
+    for_each_line(&format!("{}/boxcox.ndjson", refdir), |r| {
+        let x = r["xn"].as_f64().unwrap() / r["xd"].as_f64().unwrap();
+        let lam = r["ln"].as_f64().unwrap() / r["ld"].as_f64().unwrap();
+        let e: f64 = r["v"].as_str().unwrap().parse().unwrap();
+        let pw: f64 = r["pow"].as_str().unwrap().parse().unwrap();
+        let bound = 16.0 * f64::EPSILON * pw.max(1.0) / lam.abs() + 8.0 * f64::EPSILON * e.abs();
+        let lc = if lam.abs() < 1e-8 { "|lambda|<1e-8" } else if lam.abs() < 1e-5 { "|lambda|<1e-5" } else if lam.abs() < 0.01 { "|lambda|<1e-2" } else { "moderate-lambda" };
+        let xc = if x < 0.01 { "x<<1" } else if x > 100.0 { "x>>1" } else { "x~1" };
+        let id = json!({"x": fj(x), "lambda": fj(lam), "ref": fj(e), "bound": fj(bound)});
+        let g = guard(|| boxcox(x, lam));
+        v.check(g.map(|g| (g - e).abs() <= bound).unwrap_or(false), "boxcox", &format!("table {} {}", lc, xc), &id, json!(g.map(fj)));
+        for sh in [-0.5, 0.25, 3.0] {
+            // x - sh + sh must reproduce x exactly for the comparison to be about the transform only
+            let xs = x - sh;
+            if xs + sh != x { continue; }
+            let g = guard(|| boxcox_shifted(xs, lam, sh));
+            v.check(g.map(|g| (g - e).abs() <= bound).unwrap_or(false), "boxcox_shifted", &format!("table {} {}", lc, xc), &id, json!(g.map(fj)));
+        }
+    });
+}
+
+pub fn replay(cases: &str, verdicts: &str, refdir: Option<&String>) {
     let mut v = Verdicts::new(verdicts, "C17");
+    if let Some(d) = refdir { boxcox_table(&mut v, d); }
     let mut done_ident = false;
     let mut prev_row: Vec<Option<u64>> = vec![];
     for_each_line(cases, |c| {
